@@ -352,11 +352,19 @@ class Sym:
             if not self.dom.dominates(s, bb):
                 continue
             # invalidate facts about unstable locals redefined between s and bb
+            # (the edge p->s is the only way into s and s dominates bb, so what matters is the
+            # stretch after the last crossing of that edge: a definition invalidates the fact
+            # only if it lies on a path s ~> bb that does not take the edge again -- a guard
+            # inside a loop body on a loop-carried counter stays valid until the counter is
+            # updated)
             bad = False
-            for l in unstable_locals(cond):
-                for (db, _, _, _) in self.defs.get(l, []):
-                    if db in reachable_from(fn, s) and bb in reachable_from(fn, db):
-                        bad = True
+            ul = unstable_locals(cond)
+            if ul:
+                after = reachable_from(fn, s, blocked_edges={(p, s)})
+                for l in ul:
+                    for (db, _, _, _) in self.defs.get(l, []):
+                        if db in after and bb in reachable_from(fn, db, blocked_edges={(p, s)}):
+                            bad = True
             if not bad:
                 res.append((cond, val))
         extra = []
